@@ -77,3 +77,36 @@ func VerifC28Contended(h *verifrt.H) {
 		h.Cover("end")
 	})
 }
+
+// VerifC28Waiter: a holder, and a waiter on the same key whose context is cancelled while it
+// waits (behind the head); then the holder releases by Unlock or its TTL fires. Whatever the
+// interleaving, once nobody holds or waits the per-key state is gone.
+func VerifC28Waiter(h *verifrt.H) {
+	l := New().(*lock)
+	release := h.Choose("holderRelease", 2)
+	h.Go("holder", func() {
+		id, err := l.Lock(context.Background(), "k", time.Second)
+		h.Assert(err == nil, "lock-granted")
+		ctx, cancel := context.WithCancel(context.Background())
+		h.Go("waiter", func() {
+			wid, werr := l.Lock(ctx, "k", time.Second)
+			if werr == nil {
+				l.Unlock("k", wid)
+			}
+		})
+		h.Go("canceller", func() { cancel() })
+		h.Yield()
+		if release == 0 {
+			l.Unlock("k", id)
+		}
+	})
+	h.AtQuiescence(func() {
+		cnt := 0
+		l.queues.Range(func(k, v any) bool {
+			cnt++
+			return true
+		})
+		h.Assert(cnt == 0, "no-per-key-state-left-after-cancelled-waiter")
+		h.Cover("end")
+	})
+}
